@@ -928,16 +928,22 @@ func (c *Conn) handleStartTLS() {
 		return
 	}
 
+	// Server.Close may call Conn.Close at any time: the connection and the
+	// session are only replaced under the lock, and the session is taken out
+	// before it is logged out so that Close cannot log it out a second time.
+	c.locker.Lock()
 	c.conn = tlsConn
+	session := c.session
+	c.session = nil
+	c.locker.Unlock()
 	c.init()
 
 	// Reset all state and close the previous Session.
 	// This is different from just calling reset() since we want the Backend to
 	// be able to see the information about TLS connection in the
 	// ConnectionState object passed to it.
-	if session := c.Session(); session != nil {
+	if session != nil {
 		session.Logout()
-		c.setSession(nil)
 	}
 	c.helo = ""
 	c.didAuth = false
